@@ -355,10 +355,13 @@ def base_axioms() -> List[z3.BoolRef]:
     satisfiable_ = z3.Function("satisfiable", Obj, B)
     ax.append(z3.ForAll([o, o2_ := z3.Const("sw", Obj)], z3.Implies(conforms(o, o2_), satisfiable_(o)),
                         patterns=[conforms(o, o2_)]))
-    # == between heap objects of standard data is reflexive and symmetric (identity shortcut)
+    # == between heap objects of standard data (UUID, datetime, lists of such, ...) is an equivalence
     o2 = z3.Const("o2", Obj)
     ax.append(z3.ForAll([o], ref_eq(o, o), patterns=[ref_eq(o, o)]))
     ax.append(z3.ForAll([o, o2], ref_eq(o, o2) == ref_eq(o2, o), patterns=[ref_eq(o, o2)]))
+    o3 = z3.Const("o3", Obj)
+    ax.append(z3.ForAll([o, o2, o3], z3.Implies(z3.And(ref_eq(o, o2), ref_eq(o2, o3)), ref_eq(o, o3)),
+                        patterns=[z3.MultiPattern(ref_eq(o, o2), ref_eq(o2, o3))]))
     # all_in(v, a)  <=>  forall i < |v|. a contains v[i]      (definition, split into its two halves)
     v, a = z3.Consts("av aa", S)
     i = z3.Int("ai")
